@@ -16,7 +16,7 @@ package main
 //   fl <name> <0|1>           forceLeave(name, prune)
 //   oj                        broadcastJoin(clock.Time())  (tail of Join)
 //   lv <at>                   Leave(); own leaveTime := base + at h
-//   sd                        Shutdown()
+//   sd                        Shutdown(); every later op answers `after-shutdown` (not executed)
 //   rp <now> <n:dur,…|->      one reaper tick at base + now h with per-member timeout overrides
 //   ls                        LocalState(false), decoded
 // After every op the harness waits for a refuting join goroutine (if the op started one),
@@ -57,6 +57,7 @@ type nodeInst struct {
 	ch   chan serf.Event
 	ov   *nodeOverride
 	base time.Time
+	down bool // Shutdown was called: the event pipeline is gone, nothing more is executed
 }
 
 func newNodeInst() (*nodeInst, error) {
@@ -177,8 +178,9 @@ func (ni *nodeInst) drainQueue() string {
 	return joinOrDash(qs)
 }
 
-func (ni *nodeInst) observe() string {
-	ev := ni.drainEvents()
+func (ni *nodeInst) observe() string { return ni.observeWith(ni.drainEvents()) }
+
+func (ni *nodeInst) observeWith(ev string) string {
 	q := ni.drainQueue()
 	lts := ni.s.VerifStatusLTimes()
 	var ms []string
@@ -258,6 +260,11 @@ func (ni *nodeInst) exec(o string) string {
 	f := strings.Fields(o)
 	if len(f) == 0 {
 		return "bad-op"
+	}
+	if ni.down {
+		// after Shutdown the goroutine feeding EventCh has exited: any call that emits an event
+		// would block forever, so a shut-down node is not driven any further
+		return "after-shutdown"
 	}
 	ev := ni.conf.MemberlistConfig.Events
 	dg := ni.conf.MemberlistConfig.Delegate
@@ -387,7 +394,10 @@ func (ni *nodeInst) exec(o string) string {
 			ni.s.VerifSetLeaveTime(nodeSelf, at(t))
 		}
 	case f[0] == "sd" && len(f) == 1:
+		ev0 := ni.drainEvents() // nothing can be pending, but keep the barrier before the pipeline goes away
 		_ = ni.s.Shutdown()
+		ni.down = true
+		return ni.observeWith(ev0)
 	case f[0] == "rp" && len(f) == 3:
 		now, err := strconv.ParseUint(f[1], 10, 32)
 		if err != nil {
